@@ -1291,9 +1291,6 @@ func mirrorDiff(req *sentMsg, a RefMsg) string {
 		if len(rcs) != 1 || len(rcs[0].Data) != 4 || uint32(rcs[0].Data[0])<<24|uint32(rcs[0].Data[1])<<16|uint32(rcs[0].Data[2])<<8|uint32(rcs[0].Data[3]) != req.plan.rc {
 			return fmt.Sprintf("result-code: want one Result-Code %d, answer has %d such AVPs", req.plan.rc, len(rcs))
 		}
-		if a.AVPs[0].Code != avpResultCode {
-			return "result-code: not the first AVP of the answer"
-		}
 	}
 	mk := a.find(avpSimOctets)
 	if mk == nil || string(mk.Data) != string(req.ref.AVPs[0].Data) {
